@@ -19,6 +19,7 @@ type verifWitness struct {
 	Harness string     `json:"harness"`
 	Args    []int      `json:"args"`
 	Nondet  []verifRec `json:"nondet"`
+	Expect  string     `json:"expect"`
 }
 
 type verifResult struct {
@@ -73,7 +74,7 @@ func verifRunOne(w verifWitness) (res verifResult) {
 		}
 	}()
 	f(w.Args)
-	if !verifGlobalsUnchanged() {
+	if w.Expect == "global-state-modified" && !verifGlobalsUnchanged() {
 		panic(verifViolation{"global-state-modified", ""})
 	}
 	return
